@@ -116,5 +116,46 @@ def subtreeMove (r : SMC.Run) (x : T) : Dist T :=
             let full := T.mk' (attachAll graftKey tw.1.f.roots remaining) tw.1.out
             (full, tw.2 / Density.pOne r.dt r.c.α tw.1.f tw.1.out * Density.pOne r.dt r.c.α full.f full.out)))
 
+/-! ### The random-subtree move, factored through the region choice
+
+`subtreeMove` above is what the correspondence check runs against the real sampler and is left as it
+is.  `regionOf` is its region choice, `subtreeGiven` everything that follows once the region is
+fixed, `subtreeVia` the composition; `Proofs/PGSub1.lean` shows `subtreeMove = subtreeVia`. -/
+
+/-- the region selected through data point `i`: (forest of the region, remaining forest, graft point) -/
+def regionOf (x : T) (i : Nat) : DF × DF × Option Nat :=
+  match parentOf i x.f with
+  | none => (x.f, Orders.Forest.nil, none)
+  | some (pd, pk) =>
+    let key := pd.headD 0
+    (Orders.Forest.cons pd pk .nil, removeSub key x.f, (parentOf key x.f).map fun g => g.1.headD 0)
+
+/-- the full tree: the subtree `t` grafted back onto the remaining forest (under the clone holding the
+graft key, or at the top level); the subtree carries all outliers -/
+def graftBack (rem : DF) (graftKey : Option Nat) (t : T) : T :=
+  T.mk' (attachAll graftKey t.f.roots rem) t.out
+
+/-- `_correct_weights`: every particle becomes the full tree, its weight is divided by the subtree's
+density and multiplied by the full tree's -/
+def correctWeights (r : SMC.Run) (rem : DF) (graftKey : Option Nat) (sw : SMC.Swarm) : List (T × Rat) :=
+  sw.map fun (tw : T × Rat) =>
+    let full := graftBack rem graftKey tw.1
+    (full, tw.2 / Density.pOne r.dt r.c.α tw.1.f tw.1.out * Density.pOne r.dt r.c.α full.f full.out)
+
+/-- the random-subtree move once the region is fixed: conditional SMC on the subtree `xs` (region and
+all outliers) along a random compatible order, weight correction, final draw -/
+def subtreeGiven (r : SMC.Run) (rem : DF) (graftKey : Option Nat) (xs : T) : Dist T :=
+  Dist.bind (Dist.norm (sampleOrder xs.f xs.out)) fun σ =>
+    Dist.bind (SMC.csmc r xs σ) fun sw => Dist.categorical (correctWeights r rem graftKey sw)
+
+/-- region choice, then `subtreeGiven` -/
+def subtreeVia (r : SMC.Run) (x : T) : Dist T :=
+  let dps := x.f.all
+  if dps.isEmpty then SMC.pgStep r x
+  else
+    Dist.norm (Dist.bind (Dist.uniform dps) fun i =>
+      let reg := regionOf x i
+      subtreeGiven r reg.2.1 reg.2.2 (T.mk' reg.1 x.out))
+
 end Moves
 end PhyModel
